@@ -28,6 +28,7 @@ type Env struct {
 	qdepth      int
 	loop        *LoopInfo // the loop whose invariant is being evaluated
 	revealing   bool      // expand opaque specs (only while processing a reveal clause)
+	relL, relR  *Env      // mode R: the environments of the two runs (L(e) / R(e))
 }
 
 func (e *Env) with(name string, v Val) *Env {
@@ -381,6 +382,15 @@ func (fr *Frame) evalQuant(x *EQuant, env *Env) Val {
 			usePat = false
 		}
 	}
+	if usePat && c.rel != nil {
+		// mode R: trigger on every read of the pivot array at an index j+const that the body
+		// makes, so that an instance creates no new read of that array (no self-triggering)
+		if piv, ok := fr.findPivot(x.Body, x.Var, env); ok {
+			if ts := windowReads(body.C[0], piv.C[0], j); len(ts) > 1 {
+				pattern = strings.Join(ts, " ")
+			}
+		}
+	}
 	wrap := func(inner string) string {
 		if usePat {
 			return "(! " + inner + " :pattern (" + pattern + "))"
@@ -461,6 +471,20 @@ func (fr *Frame) evalCall(x *ECall, env *Env) Val {
 	c := fr.c
 	arg := func(i int) Val { return fr.evalExpr(x.Args[i], env) }
 	switch x.Fn {
+	case "L", "R":
+		side := env.relL
+		if x.Fn == "R" {
+			side = env.relR
+		}
+		if side == nil {
+			c.errorf("%s: %s(...) outside a relational clause", fr.name, x.Fn)
+			return intVal("0")
+		}
+		e2 := *side
+		e2.vars = env.vars
+		e2.qdepth = env.qdepth
+		e2.relL, e2.relR = env.relL, env.relR
+		return side.fr.evalExpr(x.Args[0], &e2)
 	case "local":
 		// value of a local variable of the function in the evaluation state (used in
 		// postconditions about a value built in a local, e.g. a strings.Builder)
@@ -798,4 +822,51 @@ func (fr *Frame) unfoldHint(u Expr, env *Env, reach string) {
 	}
 	rhs := fr.evalExpr(sp.Body, n)
 	c.assume(sImp(reach, sEq(lhs.C[0], rhs.C[0])))
+}
+
+// windowReads: the distinct terms (select arr j) / (select arr (+ j k)) occurring in body.
+func windowReads(body, arr, j string) []string {
+	prefix := "(select " + arr + " "
+	seen := map[string]bool{}
+	var out []string
+	for from := 0; ; {
+		k := strings.Index(body[from:], prefix)
+		if k < 0 {
+			break
+		}
+		start := from + k
+		// balanced extent of the select term
+		depth, end := 0, -1
+		for i := start; i < len(body); i++ {
+			if body[i] == '(' {
+				depth++
+			} else if body[i] == ')' {
+				depth--
+				if depth == 0 {
+					end = i + 1
+					break
+				}
+			}
+		}
+		if end < 0 {
+			break
+		}
+		t := body[start:end]
+		idx := strings.TrimSpace(t[len(prefix) : len(t)-1])
+		okIdx := idx == j
+		if !okIdx && strings.HasPrefix(idx, "(+ ") && strings.HasSuffix(idx, ")") {
+			parts := strings.Fields(idx[3 : len(idx)-1])
+			if len(parts) == 2 {
+				_, n0 := litInt(parts[0])
+				_, n1 := litInt(parts[1])
+				okIdx = (parts[0] == j && n1) || (parts[1] == j && n0)
+			}
+		}
+		if okIdx && !seen[t] {
+			seen[t] = true
+			out = append(out, t)
+		}
+		from = start + len(prefix)
+	}
+	return out
 }
